@@ -1,7 +1,8 @@
 /-
 Driver for the descriptor model (C10).
   schema <id> <json>                         register a schema (IR JSON from translate/cats.py)
-  config <id> <json>                         register the factory configuration for schema <id>
+  config <id> <schema-id> <json>             register a factory configuration (rule lists, network, optional
+                                             "overrides": [["module"|"sdk", Class, {"k":"identity"|"const"|"raise"|"list"|"int2str"|"wrap",…}],…])
   create <id> <autosort 0|1> <embedded 0|1> <descriptor-json>
         -> `ok <value-json> <enc>`   (enc = `ok:<hex>` | `err:<class>`: Codec.encode of the created value)
          | `err <class>`
@@ -74,6 +75,39 @@ partial def parseDVal (j : Json) : Except String DVal :=
     | .error _ => throw "bad descriptor value"
   | _ => throw "bad descriptor value"
 
+/-- the converters the harness can ask for (the model's theorems are about arbitrary functions) -/
+def parseConv (S : Schema) (j : Json) : Except String Conv := do
+  match (← (← j.getObjVal? "k").getStr?) with
+  | "identity" => pure fun dv => .ok dv
+  | "const" => do
+    let v ← parseDVal (← j.getObjVal? "v")
+    pure fun _ => .ok v
+  | "raise" => pure fun _ => .error (.overrideRaised "raise")
+  | "list" => pure fun dv => .ok (.list [dv])
+  | "int2str" => pure fun dv => match dv with
+    | .int i => .ok (.str (toString i))
+    | other => .ok other
+  | "wrap" => do
+    -- `lambda v: ModuleClass(v)` for a named integer type: BaseValue's range check, TypeError for anything but an int
+    let cls ← (← j.getObjVal? "cls").getStr?
+    pure fun dv => match dv, S.find cls with
+      | .int i, some (.int w sg) => if inRange w sg i then .ok (.codec cls (.int i)) else .error (.overrideRaised "range")
+      | _, _ => .error (.overrideRaised "type")
+  | other => throw s!"converter {other}"
+
+def parseOverrides (S : Schema) (j : Json) : Except String (ClassRef → Option Conv) := do
+  let entries ← (← j.getArr?).toList.mapM fun e => do
+    match (← e.getArr?).toList with
+    | [kind, name, spec] =>
+      let n ← name.getStr?
+      let c ← match (← kind.getStr?) with
+        | "module" => pure (ClassRef.module n)
+        | "sdk" => pure (ClassRef.sdk n)
+        | other => throw s!"class kind {other}"
+      pure (c, (← parseConv S spec))
+    | _ => throw "override entry"
+  pure fun c => (entries.find? (·.1 == c)).map (·.2)
+
 def strList (j : Json) (n : String) : Except String (List String) := do
   (← (← j.getObjVal? n).getArr?).toList.mapM Json.getStr?
 
@@ -106,7 +140,11 @@ def parseConfig (S : Schema) (text : String) : Except String Config := do
     addressTarget := ← (← j.getObjVal? "addressTarget").getStr?
     addressAsText := ← (← j.getObjVal? "addressAsText").getBool?
     idAutofill := ← (← j.getObjVal? "idAutofill").getBool?
-    messageHack := ← (← j.getObjVal? "messageHack").getBool? }
+    messageHack := ← (← j.getObjVal? "messageHack").getBool?
+    flagsRejectNegative := (j.getObjVal? "flagsRejectNegative" >>= Json.getBool?).toOption.getD false
+    overrides := ← (match j.getObjVal? "overrides" with
+      | .ok ov => parseOverrides S ov
+      | .error _ => pure fun _ => none) }
 
 def showE (e : E) : String :=
   (reprStr e).replace " " "_" |>.replace "\n" "_"
